@@ -611,34 +611,63 @@ def anon_fn(t):
 def canon_fn_tags(t):
     """The tag that ties a function value's parameters to it is renumbered by nesting level (it was assigned by
     recursion depth when the value was built, which changes when a call layer is reduced away)."""
+    # terms share sub-terms massively after inlining: every pass is memoised on object identity (the originals are
+    # kept alive in `keep`), otherwise the walk is exponential in the nesting depth of shared values
+    memo_go: dict = {}
+    memo_fin: dict = {}
+    keep: list = []
+
     def go(x, level):
         if not isinstance(x, tuple):
             return x
+        k = (id(x), level)
+        if k in memo_go:
+            return memo_go[k]
         if is_term(x) and x[0] == "fn" and len(x) == 5:
             tags = sorted({y[1] for y in walk(x[2:]) if y[0] == "param" and isinstance(y[1], str) and y[1].startswith("#fn")})
             body = x[2:]
             if tags:
                 own, new = tags[0], f"#Fn{level}"
                 body = _retag(body, own, new)
-            return ("fn", x[1], *(go(b, level + 1) for b in body))
-        return tuple(go(y, level) if isinstance(y, tuple) else y for y in x)
+            r = ("fn", x[1], *(go(b, level + 1) for b in body))
+        else:
+            r = tuple(go(y, level) if isinstance(y, tuple) else y for y in x)
+        keep.append(x)
+        memo_go[k] = r
+        return r
 
     def fin(x):
         if not isinstance(x, tuple):
             return x
+        k = id(x)
+        if k in memo_fin:
+            return memo_fin[k]
         if is_term(x) and x[0] == "param" and isinstance(x[1], str) and x[1].startswith("#Fn"):
-            return ("param", "#fn" + x[1][3:], *x[2:])
-        return tuple(fin(y) if isinstance(y, tuple) else y for y in x)
+            r = ("param", "#fn" + x[1][3:], *x[2:])
+        else:
+            r = tuple(fin(y) if isinstance(y, tuple) else y for y in x)
+        keep.append(x)
+        memo_fin[k] = r
+        return r
 
     return fin(go(t, 0))
 
 
-def _retag(t, old, new):
+def _retag(t, old, new, _memo=None):
     if not isinstance(t, tuple):
         return t
+    memo = {} if _memo is None else _memo
+    k = id(t)
+    if k in memo:
+        return memo[k][1]
     if is_term(t) and t[0] == "param" and t[1] == old:
-        return ("param", new, *t[2:])
-    return tuple(_retag(x, old, new) if isinstance(x, tuple) else x for x in t)
+        r = ("param", new, *t[2:])
+    else:
+        r = tuple(_retag(x, old, new, memo) if isinstance(x, tuple) else x for x in t)
+        if r == t:
+            r = t  # unchanged sub-terms stay shared
+    memo[k] = (t, r)  # keeps t alive while its id is a key
+    return r
 
 
 def content(prog, t, depth=0, covered=None, every=False):
@@ -1131,7 +1160,48 @@ def compare_factory(ctx: Ctx, actual_q: str, ref_name: str, what: str, *, soft: 
 LOCAL_EDIT = 30
 
 
+class _BudgetExceeded(Exception):
+    pass
+
+
+def _with_budget(prog, fn, seconds=None):
+    """Run fn() under a wall-clock budget (a comparison whose normal forms explode is not decided, instead of blocking the
+    check).  Uses SIGALRM, so it only arms in the main thread; half-finished cache entries are dropped afterwards."""
+    import os
+    import signal
+    import threading
+
+    seconds = float(os.environ.get("LCMSA_KER_BUDGET", "90")) if seconds is None else seconds
+    if threading.current_thread() is not threading.main_thread() or not hasattr(signal, "setitimer"):
+        return fn()
+
+    def on_alarm(_sig, _frm):
+        raise _BudgetExceeded
+
+    old = signal.signal(signal.SIGALRM, on_alarm)
+    signal.setitimer(signal.ITIMER_REAL, seconds)
+    try:
+        return fn()
+    except _BudgetExceeded:
+        cache = getattr(prog, "_inline_cache", None)
+        if isinstance(cache, dict):
+            for k in [k for k, v in cache.items() if v is None or v == ("unknown", "recursion")]:
+                cache.pop(k, None)
+        raise
+    finally:
+        signal.setitimer(signal.ITIMER_REAL, 0)
+        signal.signal(signal.SIGALRM, old)
+
+
 def _judge(ctx, key, where, what, level, vocab, loops_restructured, lhs, rhs):
+    try:
+        return _with_budget(ctx.prog, lambda: _judge_unbounded(ctx, key, where, what, level, vocab, loops_restructured, lhs, rhs))
+    except _BudgetExceeded:
+        ctx.undecided(key, f"{what}: the comparison with the reference form exceeded its time budget (the normal forms of the "
+                      "changed code grow too large): not decided", where)
+
+
+def _judge_unbounded(ctx, key, where, what, level, vocab, loops_restructured, lhs, rhs):
     """Verdict of a comparison with a reviewed form.
 
     equal normal forms (helpers with a reviewed form opaque)            -> PROVED
